@@ -74,7 +74,7 @@ ScenarioSpace ==
              fe \in FetchOutcomes, c \in CacheStates, d \in DigestOutcomes, t \in TrustDims,
              va \in ValidVals, pr \in PreVals} :
      /\ s.cache = "hit" => s.digest = "match"        \* the cache is keyed by the declared digest
-     /\ s.cache = "corrupt" => s.digest # "empty"
+     /\ s.cache \in {"corrupt", "tampered"} => s.digest # "empty"
      /\ s.form # "targz" => Len(s.entries) <= 1}
 
 (* ------------------------------------------------------------------ state *)
